@@ -298,6 +298,35 @@ fn reader_half<const N: usize, const NV: usize>(t: &[u8], d: u64, lk: usize, lv:
     core::mem::forget(it);
 }
 
+
+/// A log holding ONE batch, cut at `cut` < N bytes: no batch is complete, so the very first
+/// `next()` must not return an entry (the prefix of the appended batches is empty).  The harness
+/// stops there, which keeps the query small enough to decide on a changed reader as well.
+#[cfg(kani)]
+fn torn_half<const N: usize, const NV: usize>(t: &[u8], d: u64, lk: usize, lv: usize, second: u8, mk: fn(&[u8], fn(&[u8]) -> u32) -> [u8; N], cut: usize) {
+    let mut p = [0u8; NV];
+    let mut i = 0;
+    while i < NV {
+        p[i] = t[i] & 0x7f;
+        i += 1;
+    }
+    fix_timestamps(&mut p, lk, lv, second);
+    assert!(cut < N && second != 1, "harness: a single batch, really truncated");
+    let img = mk(&p, stub_crc);
+    let r = ImgReader::<N> { img, len: cut, base: BLOCK - d, pos: BLOCK - d };
+    let it = LogIterator::from_reader(opts(), r);
+    assert!(it.is_ok(), "from_reader Ok");
+    let mut it = it.unwrap();
+    let mut bad = false;
+    match it.next() {
+        Ok(Some(_)) => bad = true,
+        Ok(None) => {}
+        Err(e) => core::mem::forget(e),
+    }
+    assert!(!bad, "no entry is returned from a batch whose tail is missing");
+    core::mem::forget(it);
+}
+
 // ------------------------------------------------------------------ shapes (name, D, LK, LV, second)
 
 macro_rules! log_shape {
@@ -414,6 +443,35 @@ log_cut!(k_whole_d40_empty, 0, 40, 1, 1, 0, T_WHOLE_D40_LEN, img_whole_d40);
 log_cut!(k_split_d20_at_boundary, 20, 20, 1, 1, 0, T_SPLIT_D20_LEN, img_split_d20);
 log_cut!(k_two_d60_between, 25, 60, 2, 3, 1, T_TWO_D60_LEN, img_two_d60);
 log_cut!(k_two_d60_in_second, 30, 60, 2, 3, 1, T_TWO_D60_LEN, img_two_d60);
+
+
+/// Torn single batch: first `next()` only (see `torn_half`).
+macro_rules! log_torn {
+    ($name:ident, $cut:expr, $d:expr, $lk:expr, $lv:expr, $second:expr, $len:ident, $img:ident) => {
+        harness!(
+            #[kani::stub(crc32c::crc32c, stub_crc)]
+            #[kani::stub(crate::system_error, stub_system_error)]
+            #[kani::stub(crate::unpack_log_header, stub_unpack_err)]
+            #[kani::stub(crate::unpack_key_value_entry_prototk, stub_unpack_err)]
+            #[kani::stub(alloc::fmt::format, serr::format)]
+            #[kani::stub(handled::SError::new, serr::serr_new)]
+            #[kani::stub(handled::SError::with_code, serr::serr_with_str)]
+            #[kani::stub(handled::SError::with_message, serr::serr_with_str)]
+            #[kani::stub(handled::SError::with_atom_field, serr::serr_with_atom)]
+            #[kani::stub(handled::SError::with_string_field, serr::serr_with_string)]
+            #[kani::stub(handled::SError::with_debug_field, serr::serr_with_debug)]
+            $name, nvars($lk, $lv, $second) + 1, |t| {
+                #[cfg(kani)]
+                torn_half::<$len, { nvars($lk, $lv, $second) }>(t, $d, $lk, $lv, $second, $img, $cut);
+                #[cfg(not(kani))]
+                native_torn_check($d, $lk, $lv, $second, t, $cut);
+            });
+    };
+}
+log_torn!(t_batch2_d32_at_boundary, 32, 32, 1, 1, 2, T_BATCH2_D32_LEN, img_batch2_d32);
+log_torn!(t_batch2_d32_after_boundary, 33, 32, 1, 1, 2, T_BATCH2_D32_LEN, img_batch2_d32);
+log_torn!(t_batch2_d32_mid_padding, 26, 32, 1, 1, 2, T_BATCH2_D32_LEN, img_batch2_d32);
+log_torn!(t_split_d26_at_boundary, 26, 26, 3, 4, 0, T_SPLIT_D26_LEN, img_split_d26);
 
 /// (name, D, LK, LV, second) -- the list the template derivation walks.
 pub const SHAPES: &[(&str, u64, usize, usize, u8)] = &[
@@ -614,7 +672,25 @@ fn native_shape_check(d: u64, lk: usize, lv: usize, second: u8, t: &[u8], cut_mo
     }
     if cut == img.len() {
         assert!(got == total && !errored, "an intact log does not round trip");
+    } else if second != 1 {
+        assert!(got == 0, "an entry is returned from a batch whose tail is missing");
     }
+}
+/// Native counterpart of `torn_half`: REAL writer (real CRC, real setsum), image cut at `cut`,
+/// REAL reader, first `next()` only.
+#[cfg(not(kani))]
+fn native_torn_check(d: u64, lk: usize, lv: usize, second: u8, t: &[u8], cut: usize) {
+    let nv = nvars(lk, lv, second);
+    let mut p: Vec<u8> = (0..nv).map(|i| t[i] & 0x7f).collect();
+    fix_timestamps(&mut p, lk, lv, second);
+    let img = run_writer(d, lk, lv, second, &p).expect("the writer rejects the batches");
+    assert!(cut < img.len() && second != 1, "harness: a single batch, really truncated");
+    let mut arr = [0u8; 128];
+    arr[..img.len()].copy_from_slice(&img);
+    let r = ImgReader::<128> { img: arr, len: cut, base: BLOCK - d, pos: BLOCK - d };
+    let mut it = LogIterator::from_reader(opts(), r).unwrap();
+    let bad = matches!(it.next(), Ok(Some(_)));
+    assert!(!bad, "no entry is returned from a batch whose tail is missing");
 }
 #[cfg(not(kani))]
 fn native_roundtrip(t: &[u8]) {
@@ -635,4 +711,5 @@ harness_list!(
     w_batch2_d32, r_batch2_d32, c_batch2_d32, w_batch2_d60, r_batch2_d60, c_batch2_d60,
     k_batch2_d32_at_boundary, k_batch2_d32_before_boundary, k_batch2_d32_after_boundary, k_batch2_d32_mid_padding,
     e_whole_d40, e_split_d20, e_two_d60, k_whole_d40_last_byte, k_whole_d40_first_byte, k_whole_d40_empty, k_split_d20_at_boundary, k_two_d60_between, k_two_d60_in_second,
+    t_batch2_d32_at_boundary, t_batch2_d32_after_boundary, t_batch2_d32_mid_padding, t_split_d26_at_boundary,
 );
